@@ -6,5 +6,5 @@ m=/dev/shm/mut_$$
 git -C /repo worktree add -q --detach $m HEAD || exit 2
 if [ -f "$what" ]; then what=$(realpath "$what"); git -C $m apply "$what" || { git -C /repo worktree remove --force $m; exit 2; }
 else git -C $m revert --no-commit $what >/dev/null || { git -C /repo worktree remove --force $m; exit 2; }; fi
-cd /verif && VERIF_REPO=$m VERIF_SEED=$seed ./check $prop 2>&1 | grep -v WARN | grep -E "VIOLATION|^\[|^  \[|HARNESS" | cut -c1-300
+cd /verif && VERIF_EVIDENCE_DIR=/dev/shm/against_ev VERIF_REPLAY_DIR=${VERIF_REPLAY_DIR:-/dev/shm/against_rp} VERIF_REPO=$m VERIF_SEED=$seed ./check $prop 2>&1 | grep -v WARN | grep -E "VIOLATION|^\[|^  \[|HARNESS" | cut -c1-300
 git -C /repo worktree remove --force $m
